@@ -240,18 +240,19 @@ func Judge(module string, events [][]byte, extra map[string][]byte) (JudgeResult
 	curOff := 0
 	lastCfg := -1
 	for i := 0; i < len(events); i++ {
-		boundary := kinds[i] == "Config" || kinds[i] == "Req" || kinds[i] == "Reset"
+		isCfg := kinds[i] == "Config" || kinds[i] == "Schema"
+		boundary := isCfg || caseStartKinds[kinds[i]]
 		if boundary && len(cur) >= target {
 			chunks = append(chunks, chunk{cur, curOff})
 			cur = nil
-			if kinds[i] != "Config" && lastCfg >= 0 {
+			if !isCfg && lastCfg >= 0 {
 				cur = append(cur, events[lastCfg])
 				curOff = i - 1
 			} else {
 				curOff = i
 			}
 		}
-		if kinds[i] == "Config" {
+		if isCfg {
 			lastCfg = i
 		}
 		cur = append(cur, events[i])
@@ -293,6 +294,9 @@ func Judge(module string, events [][]byte, extra map[string][]byte) (JudgeResult
 	jr.EndAt = len(events) + 1
 	return jr, nil
 }
+
+// events that start a self-contained case (a chunk may begin there once the last Config/Schema is repeated)
+var caseStartKinds = map[string]bool{"Req": true, "Reset": true, "Enc": true, "Dec": true, "Parse": true, "Gen": true, "Embed": true, "Call": true}
 
 func judgeOne(module string, events [][]byte, extra map[string][]byte, offset int) (JudgeResult, error) {
 	var jr JudgeResult
